@@ -1,6 +1,7 @@
 package symex
 
 import (
+	"path/filepath"
 	"strconv"
 	"fmt"
 	"go/types"
@@ -560,6 +561,47 @@ func registerIntrinsics(ex *Executor) {
 			}
 		}
 		return st.fresh("sprint", smt.String), cNext
+	}
+	// string helpers evaluated on literals (file names, tags); symbolic arguments are not modelled
+	constStr := func(ex *Executor, name string, args []Val) []string {
+		var out []string
+		for _, a := range args {
+			t, ok := a.(*smt.Term)
+			if !ok || !t.IsConst() || t.Sort != smt.String {
+				ex.abort("%s with a symbolic argument", name)
+			}
+			out = append(out, t.S)
+		}
+		return out
+	}
+	I["strings.Cut"] = func(ex *Executor, st *State, cc *CallCtx, args []Val) (Val, ctl) {
+		a := constStr(ex, "strings.Cut", args)
+		before, after, found := strings.Cut(a[0], a[1])
+		return TupleV{smt.StrC(before), smt.StrC(after), smt.BoolC(found)}, cNext
+	}
+	I["strings.Index"] = func(ex *Executor, st *State, cc *CallCtx, args []Val) (Val, ctl) {
+		a := constStr(ex, "strings.Index", args)
+		return smt.IntC(int64(strings.Index(a[0], a[1]))), cNext
+	}
+	I["strings.LastIndex"] = func(ex *Executor, st *State, cc *CallCtx, args []Val) (Val, ctl) {
+		a := constStr(ex, "strings.LastIndex", args)
+		return smt.IntC(int64(strings.LastIndex(a[0], a[1]))), cNext
+	}
+	I["strings.Contains"] = func(ex *Executor, st *State, cc *CallCtx, args []Val) (Val, ctl) {
+		a := constStr(ex, "strings.Contains", args)
+		return smt.BoolC(strings.Contains(a[0], a[1])), cNext
+	}
+	I["strings.TrimSuffix"] = func(ex *Executor, st *State, cc *CallCtx, args []Val) (Val, ctl) {
+		a := constStr(ex, "strings.TrimSuffix", args)
+		return smt.StrC(strings.TrimSuffix(a[0], a[1])), cNext
+	}
+	I["strings.TrimPrefix"] = func(ex *Executor, st *State, cc *CallCtx, args []Val) (Val, ctl) {
+		a := constStr(ex, "strings.TrimPrefix", args)
+		return smt.StrC(strings.TrimPrefix(a[0], a[1])), cNext
+	}
+	I["path/filepath.Ext"] = func(ex *Executor, st *State, cc *CallCtx, args []Val) (Val, ctl) {
+		a := constStr(ex, "filepath.Ext", args)
+		return smt.StrC(filepath.Ext(a[0])), cNext
 	}
 	// strings.TrimSpace: computed on literals; on symbolic text an idempotent uninterpreted function (a string may or may not
 	// carry surrounding white space)
